@@ -27,6 +27,7 @@ def run(ctx):
     ctx.run(L.flw22_busy_flag_released)
     ctx.run(S.pan4_constant_result_columns)
     ctx.run(OP.pan5_result_type_lattice_total)
+    ctx.run(O.pan6_cold_load_failures_are_values)
     return ctx.finish(
         'Static analysis of compiler MIR: deadlock-freedom clauses (acyclic lock-order graph over '
         'all lock identities, no guard across blocking calls except tabled sites, paired condvar '
